@@ -549,6 +549,21 @@ def _uf_app(name, *args):
     return t
 
 
+def _has_div(t, _depth=0) -> bool:
+    """Whether a division occurs in the term (bounded traversal)."""
+    todo, seen = [t], set()
+    while todo and len(seen) < 4000:
+        u = todo.pop()
+        if u.get_id() in seen:
+            continue
+        seen.add(u.get_id())
+        if z3.is_app(u):
+            if u.decl().kind() == z3.Z3_OP_DIV:
+                return True
+            todo.extend(u.children())
+    return False
+
+
 def _sum_of_squares(t) -> bool:
     """Syntactic test: t is a sum of products u*u / even powers / nonneg constants."""
     if _is_const(t):
@@ -1651,10 +1666,30 @@ class Explorer(_BaseCtx):
             self.stats["trivial"] = self.stats.get("trivial", 0) + 1
             self._sample(label, f, "unsat(simplifier)")
             return True
+        if z3.is_eq(fs) and fs.arg(0).sort() == z3.RealSort() and _has_div(fs):
+            # equalities of rational expressions: first the cross-multiplied polynomial identity (a sufficient condition that
+            # the simplifier usually closes at once), then the plain query
+            try:
+                from symgem.diff import cross_equal
+
+                suff = cross_equal(SymReal(fs.arg(0)), SymReal(fs.arg(1)))
+                saved = self.solver
+                self.solver.set("timeout", max(2000, self.query_timeout_ms // 4))
+                r3, _ = self._check(z3.Not(suff))
+                self.solver.set("timeout", self.query_timeout_ms)
+                if r3 == z3.unsat:
+                    self._sample(label, f, "unsat(cross-multiplied)")
+                    return True
+            except (Unsupported, z3.Z3Exception):
+                self.solver.set("timeout", self.query_timeout_ms)
         r, m = self._check(z3.Not(fs))
         if r == z3.unsat:
             self._sample(label, f, "unsat")
             return True
+        if r == z3.unknown:
+            self.recovered = getattr(self, "recovered", [])
+            if len(self.recovered) < 5:
+                self.recovered.append(label)
         if r == z3.unknown and z3.is_eq(fs) and fs.arg(0).sort() == z3.RealSort():
             # sufficient condition: the cross-multiplied polynomial identity with all divisors non-zero (symgem.diff.cross_equal)
             try:
